@@ -223,7 +223,7 @@ def consumer(rng, i):
                 steps.append({"do": "cancel", "h": h, "c": c})      # second cancel: nothing is sent
             live.remove((h, c))
         elif r < 0.65:
-            steps.append({"do": "dropc", "h": h, "c": c})
+            steps.append({"do": "dropc", "h": h, "c": c, "panic": rng.random() < 0.3})
             live.remove((h, c))
         elif r < 0.8:
             nowait = rng.random() < 0.5
@@ -242,7 +242,7 @@ def consumer(rng, i):
                 steps.append({"do": "sync"})
                 if r2 < 0.6:
                     # the application cancels / drops a consumer the server has already cancelled
-                    steps.append({"do": rng.choice(["cancel", "dropc"]), "h": h, "c": c})
+                    steps.append({"do": rng.choice(["cancel", "dropc"]), "h": h, "c": c, "panic": rng.random() < 0.3})
             live.remove((h, c))
         elif r < 0.88:
             steps.append({"do": "close", "h": h})
@@ -280,7 +280,7 @@ def consumer_drop(rng, i):
         if rng.random() < 0.4:
             mid += 1
             steps.append(srv(deliver(ids[h], c, mid, 4, [4])))
-        steps.append({"do": "dropc", "h": h, "c": c})
+        steps.append({"do": "dropc", "h": h, "c": c, "panic": rng.random() < 0.3})
         steps.append(op(h, rng.choice(["qos", "declare"])))
     for h in hs:
         steps.append(op(h, "qos"))
@@ -1033,7 +1033,7 @@ def mixed(rng, i):
         elif r < 0.71 and st["cons"]:
             unstall()
             c = st["cons"].pop(rng.randrange(len(st["cons"])))
-            steps.append({"do": rng.choice(["cancel", "dropc"]), "h": h, "c": c})
+            steps.append({"do": rng.choice(["cancel", "dropc"]), "h": h, "c": c, "panic": rng.random() < 0.3})
         elif r < 0.75 and st["cons"]:
             c = st["cons"].pop(rng.randrange(len(st["cons"])))
             steps.append(srv({"k": "cancel", "ch": ch, "tag": c, "nowait": rng.random() < 0.5}))
